@@ -12,7 +12,9 @@ client outcome must equal what a small reference walk predicts by replaying the 
 the policy is consulted exactly once per error with retry_num == retries performed so far, the documented
 consistency argument and the error's fields.  A speculative phase (first answer held while virtual time passes the
 speculative delay several times) checks that a statement not marked idempotent never has a second execution in
-flight, and that an idempotent one gets exactly the configured ones on the next hosts of the plan.
+flight, and that an idempotent one gets exactly the configured ones on the next hosts of the plan.  A third kind of
+statement has two executions (the first and a speculative one) answered with errors in the same instant: the k-th
+consultation must be told retry_num == k, the number of retries already decided, whatever the executor has sent so far.
 """
 import random
 
@@ -155,6 +157,13 @@ def run_history(seed):
                 skind = 'query'            # session.prepare itself needs a live host
             alive_in_order = [a for a in order if a not in dead]
             spec = (r == nreq - 1) and rng.random() < 0.5 and bool(alive_in_order)
+            if (r == nreq - 1) and not spec and len(alive_in_order) >= 2 and rng.random() < 0.6:
+                q = concurrent_errors(C, env, session, lbp, pol, plan, rec, rng, errgen, seed, r, uid, proto, n, order, dead, alive_in_order,
+                                      attempts, init_cl, echoed_uid, uid_query, SimpleStatement)
+                for mech, what in q.pop('violations'):
+                    viol.append((mech, what, q))
+                reqs.append(q)
+                break
             if spec and kinds and kinds[0] in C.CONN_KINDS:
                 kinds[0] = rng.choice(C.SERVER_KINDS)
             errs = [errgen.make(k) for k in kinds]
@@ -230,6 +239,93 @@ def run_history(seed):
         cluster.shutdown()
         env.world.settle()
     return viol, harness, reqs
+
+
+def concurrent_errors(C, env, session, lbp, pol, plan, rec, rng, errgen, seed, r, uid, proto, n, order, dead, alive, attempts, init_cl,
+                      echoed_uid, uid_query, SimpleStatement):
+    """Two executions of one idempotent statement (the first and a speculative one) are answered with errors in the same virtual
+    instant: both answers are released before anything else runs.  Reference: the policy is consulted once per error, the k-th
+    consultation is told retry_num == k (retries already DECIDED for this execution, whether or not the executor has sent them yet);
+    RETRY goes to the host whose error it was, RETRY_NEXT_HOST to the next unused plan hosts; the first retry's answer completes."""
+    nspec = min(attempts, len(alive) - 1)
+    inflight = alive[:1 + nspec]
+    j = rng.randint(1, nspec)
+    remaining = alive[1 + nspec:]
+    kinds = rng.sample(C.SERVER_KINDS, 2)                      # two different kinds: consultations can be told apart
+    errs = {0: errgen.make(kinds[0]), j: errgen.make(kinds[1])}
+    acts = []
+    for i in range(len(inflight)):
+        if i in errs:
+            a = errs[i]['action']
+            acts.append(('hold-error', a[1], a[2]))
+        else:
+            acts.append('silent')
+    plan.set(uid, acts + ['rows', 'silent', 'silent'])
+    st = SimpleStatement(uid_query(uid), consistency_level=init_cl, is_idempotent=True)
+    lbp.order = list(order)
+    m_seen, m_log = len(plan.seen), len(pol.log)
+    with env.world.inspect():
+        rec.execute_async(session, uid, statement=st, timeout=60.0)
+    env.world.settle(advance=False)
+    env.world.advance_to(env.world.now + SPEC_DELAY * (attempts + 2) + 0.05)
+    env.world.settle(advance=False)
+    with env.world.inspect():
+        before = [(s[0], s[5]) for s in plan.seen[m_seen:] if s[3] == uid]
+        consults_before = len([l for l in pol.log[m_log:] if l['query'] is st])
+    pol.window = dict(allowed=[C.RETRY, C.RETRY_NEXT_HOST] if len(remaining) >= 2 else [C.RETRY])
+    for hld in list(env.net.held):                             # both error answers at once, nothing runs in between
+        if not hld.done:
+            hld.release()
+    env.world.settle(advance=False)
+    pol.window = None
+    lbp.order = None
+    v = []
+    with env.world.inspect():
+        seen = [(s[0], s[5]) for s in plan.seen[m_seen:] if s[3] == uid]
+        log = [l for l in pol.log[m_log:] if l['query'] is st]
+        outs = rec.outcomes(uid)
+        q = dict(seed=seed, request=r, proto=proto, nodes=n, order=order, dead_before=sorted(dead), statement='query', idempotent=True,
+                 init_cl=init_cl, errors=kinds, final='rows', speculative_phase=False, concurrent_errors=True, spec_attempts=attempts,
+                 in_flight=inflight, hosts_answering_with_errors=[inflight[0], inflight[j]],
+                 decisions=[(C.DECISION_NAMES.get(l['decision'][0]), l['decision'][1]) for l in log],
+                 retry_nums=[l['retry_num'] for l in log], node_trace=seen, outcome=[(o[0], repr(o[3])[:160]) for o in outs])
+        if before != [(h, init_cl) for h in inflight] or consults_before:
+            v.append(('speculative-executions-not-on-next-plan-hosts', 'before any answer: %r (consultations %d), expected %r' % (before, consults_before, inflight)))
+        elif len(log) != 2:
+            v.append(('policy-consulted-more-than-once-per-error' if len(log) > 2 else 'policy-not-consulted-for-an-error',
+                      '%d consultations for 2 errors delivered' % len(log)))
+        else:
+            owner = []
+            for l in log:
+                m = [i for i, e in errs.items() if e['method'] == l['method'] and l['fields'] == e['fields'] and
+                     l['consistency'] == (e['consistency'] if e['consistency'] is not None else init_cl)]
+                owner.append(m[0] if len(m) == 1 else None)
+            if None in owner or owner[0] == owner[1]:
+                v.append(('policy-error-fields-wrong', 'consultations %r do not correspond one-to-one to the two errors sent (%r)' % (
+                    [(l['method'], l['consistency'], l['fields']) for l in log], kinds)))
+            elif [l['retry_num'] for l in log] != [0, 1]:
+                v.append(('retry-num-not-number-of-retries-performed',
+                          'two errors judged back to back, both leading to a retry: retry_num passed %r, retries already decided [0, 1]' % (
+                              [l['retry_num'] for l in log],)))
+            else:
+                nxt = list(remaining)
+                exp = []
+                for l, i in zip(log, owner):
+                    exp.append(inflight[i] if l['decision'][0] == C.RETRY else nxt.pop(0))
+                got = seen[len(inflight):]
+                if sorted(h for h, _ in got) != sorted(exp):
+                    v.append(('message-sent-to-host-not-decided', 'retries went to %r, the decisions %r over plan %r say %r' % (
+                        [h for h, _ in got], q['decisions'], order, exp)))
+                elif any(c != init_cl for _, c in got):
+                    v.append(('consistency-level-not-as-decided', 'retries carried %r, decided: keep %r' % ([c for _, c in got], init_cl)))
+                elif not outs:
+                    v.append(('no-outcome-delivered', 'the statement never completed'))
+                else:
+                    rows = list(outs[0][3] or []) if outs[0][0] == 'cb' else []
+                    if outs[0][0] != 'cb' or echoed_uid(rows) != uid or rows[0].node != got[0][0]:
+                        v.append(('outcome-not-as-decided', 'expected the row of %s (first retry to arrive), got %r %r' % (got[0][0], outs[0][0], outs[0][3])))
+    q['violations'] = v
+    return q
 
 
 def judge(C, ref, seen, log, outs, phase, spec, idem, nspec, order, uid, echoed_uid, NoHostAvailable, foreign):
@@ -365,6 +461,8 @@ def run(ctx):
                 ctx.count("decisions_" + d[0])
             if q['speculative_phase']:
                 ctx.count("speculative_phases_idempotent" if q['idempotent'] else "speculative_phases_non_idempotent")
+            if q.get('concurrent_errors'):
+                ctx.count("statements_with_two_errors_judged_back_to_back")
             if any(k in ('reset', 'close') for k in q['errors']):
                 ctx.count("statements_with_connection_loss")
             if len(ctx.samples) < 4 and len(q['decisions']) >= 3:
@@ -379,4 +477,4 @@ def run(ctx):
     ctx.floor_counters = {"histories": 150, "policy_consultations_checked": 400, "node_messages_compared": 800,
                           "speculative_phases_non_idempotent": 20, "speculative_phases_idempotent": 20,
                           "decisions_RETRY": 50, "decisions_RETRY_NEXT_HOST": 50, "decisions_RETHROW": 20, "decisions_IGNORE": 20,
-                          "statements_with_connection_loss": 30}
+                          "statements_with_connection_loss": 30, "statements_with_two_errors_judged_back_to_back": 20}
